@@ -79,9 +79,9 @@ def handle : Handler
                      expectEq "rem" (toString s'.rem) (toString rem'),
                      expectEq "supply" (toString s'.supply) (toString supply')]
             | _ => "ok"
-          if cmp != "ok" then cmp else
-          -- (2) property predicates on the implementation's own observation
-          match invPred R post with
+          -- (2) property predicates on the implementation's own observation; a predicate failure is
+          --     the stronger verdict (a concrete failing input), so it is reported before a mismatch
+          let pred := match invPred R post with
           | some why => predfail "C03_inv" why
           | none =>
             let amt := u * C + x
@@ -108,6 +108,7 @@ def handle : Handler
               else if !frameOk R pre post [a] then predfail "C03_burn_exact" "frame"
               else "ok"
             else badInput "kind"
+          if pred != "ok" then pred else cmp
         | _, _, _, _ => badInput "post"
       | "err" =>
         -- the operation must fail exactly when bank rules require it
